@@ -481,7 +481,13 @@ func (w SocialWrappedCallbacks) like(c context.Context, a vocab.ActivityStreamsL
 	if err := w.db.Lock(c, actorIRI); err != nil {
 		return err
 	}
-	defer w.db.Unlock(c, actorIRI)
+	// The lock is released before the application's callback runs.
+	unlocked := false
+	defer func() {
+		if !unlocked {
+			w.db.Unlock(c, actorIRI)
+		}
+	}()
 	liked, err := w.db.Liked(c, actorIRI)
 	if err != nil {
 		return err
@@ -502,6 +508,8 @@ func (w SocialWrappedCallbacks) like(c context.Context, a vocab.ActivityStreamsL
 	if err != nil {
 		return err
 	}
+	unlocked = true
+	w.db.Unlock(c, actorIRI)
 	if w.Like != nil {
 		return w.Like(c, a)
 	}
